@@ -77,6 +77,10 @@ def step (_ : Unit) (line : String) : Unit × String :=
     | some sI, some sT =>
       ((), showEdits (moduleEdits (parseLocs li) (parseLocs lt) (rndOf (parseTable ri)) (rndOf (parseTable rt)) sI sT))
     | _, _ => ((), "out-of-fuel")
+  -- `cadec <covers 0/1> <lookup module> <doc module> <bits: module declares the name>`: offered per module
+  | ["cadec", cov, lookup, docm, bits] =>
+    ((), String.ofList (bits.toList.map fun b =>
+      if codeActionOffered (cov == "1") lookup docm (b == '1') then '1' else '0'))
   -- `cdec <available names> <root 0/1> <names>`: which completion items carry the auto-import edit
   | ["cdec", av, root, ns] =>
     let avail := if av == "-" then [] else av.splitOn ","
